@@ -396,11 +396,12 @@ func famC05extra(r *Run) {
 	for _, s := range fsigs {
 		for _, b := range badUTF8 {
 			raw := "'" + b + "'"
-			for _, e := range []string{
+			for k, e := range []string{
 				s.name + "(" + raw + ")", s.name + "(" + raw + ", " + raw + ")", s.name + "(" + raw + ", 'a')", s.name + "('a', " + raw + ")",
 				s.name + "([" + raw + ", 'b'])", s.name + "(', ', [" + raw + ", " + raw + "])", s.name + "([" + raw + "], &@)", s.name + "(&@, [" + raw + "])",
 			} {
-				if r.tier != "thorough" && r.rng.Intn(3) != 0 {
+				// the one-argument form always runs; the others are sampled in the quick tier
+				if r.tier != "thorough" && k != 0 && r.rng.Intn(3) != 0 {
 					continue
 				}
 				r.mark("fun-invalid-utf8", e, nil)
